@@ -221,11 +221,11 @@ pub fn run(ctx: &Ctx) -> (Level, Report) {
 	let mut report = Report::default();
 	for (name, check) in tape_checks(ctx) {
 		let quick = match name {
-			"prefixes" => 30_000,
-			"concat" => 20_000,
-			_ => 120_000,
+			"prefixes" => 60_000,
+			"concat" => 40_000,
+			_ => 300_000,
 		};
-		let out = ctx.random(name, quick, 20, 2048, &*check);
+		let out = ctx.random(name, quick, 10, 2048, &*check);
 		report.absorb(name, out);
 	}
 	(
